@@ -129,6 +129,7 @@ func (ba *badgerBatch) VisitCleanNode(ptr *node.Pointer, parent *node.Pointer) e
 	wasRootNode := iptr.isRoot()
 	isRootNode := parent == nil
 	if wasRootNode != isRootNode {
+		ba.assignedPtrs = append(ba.assignedPtrs, assignedPtr{ptr, ptr.DBInternal})
 		ptr.DBInternal = nil
 		needsPutNode = true
 
@@ -151,6 +152,7 @@ func (ba *badgerBatch) VisitCleanNode(ptr *node.Pointer, parent *node.Pointer) e
 		}
 	}
 	if wasInvalid && !isInvalid {
+		ba.assignedPtrs = append(ba.assignedPtrs, assignedPtr{ptr, ptr.DBInternal})
 		ptr.DBInternal = nil
 		needsPutNode = true
 
@@ -185,6 +187,7 @@ func (ba *badgerBatch) refreshDbPtr(ptr *node.Pointer, parent *node.Pointer) err
 			index = ba.lastIndex.Add(1)
 		}
 
+		ba.assignedPtrs = append(ba.assignedPtrs, assignedPtr{ptr, nil})
 		ptr.DBInternal = &dbPtr{
 			version: ba.version,
 			index:   index,
